@@ -232,6 +232,19 @@ func vBudget(tier string) time.Duration {
 	return 100 * time.Second
 }
 
+// vResetGlobalsHook is set by the file the instrumenter generates (zz_vrt_globals.go): it
+// re-initialises every package-level variable of the code under test and re-runs its init
+// functions. Every execution starts with it, so that state the code under test keeps at
+// package level (registries, caches, singletons, counters) never travels from one
+// execution to the next: each execution is a new process as far as the package can tell.
+var vResetGlobalsHook func()
+
+func vResetGlobals() {
+	if vResetGlobalsHook != nil {
+		vResetGlobalsHook()
+	}
+}
+
 // vClassReplay: replay functions for violation classes raised by explorers that are
 // shared between properties (search-object histories, ...).
 var vClassReplay = map[string]func(c *vCtx, v *vViolation) bool{}
